@@ -130,7 +130,14 @@ def dec_obs(rep, tab, data=None):
             if ns == 'jol':
                 return [tab.unname('jol', b''.join(int(c).to_bytes(2, 'big') for c in comp)
                                    .decode('utf-16_be', 'surrogatepass')) for comp in path]
-            return [tab.unname('iso', bytes(comp).decode('latin-1')) for comp in path]
+            # (pycdlib writes non-ASCII ISO9660:1999 identifiers as UTF-8)
+            out_ = []
+            for comp in path:
+                try:
+                    out_.append(tab.unname('iso', bytes(comp).decode('utf-8')))
+                except UnicodeDecodeError:
+                    out_.append(tab.unname('iso', bytes(comp).decode('latin-1')))
+            return out_
         for d in rep['trees'][ns]:
             if d['path']:
                 out[ns].append({'p': ids(d['path']), 'k': 'dir', 'b': '',
